@@ -216,7 +216,12 @@ class parameters:
                     
                 # here if float and int worked
                 # should not be needed, depends on int valueerror
-                if abs(vi - vf) < 1e-9:
+                try:
+                    isint = abs(vi - vf) < 1e-9
+                except OverflowError:
+                    # integer literal beyond the float range (vf is +-inf)
+                    isint = True
+                if isint:
                     # use int
                     self.parameters[name] = vi
                     continue
